@@ -636,9 +636,13 @@ def main():
             rc = 1
         else:
             labelled, fns, implicit = obligations_for(sess, p)
-            print("OK property=%s functions=%d labelled_obligations=%d implicit_sites=%d canaries=%d/%d verus_wall=%.1fs%s" % (
+            stx = ""
+            if st is not None:
+                stx = " self_test=%d/%d changes reported (%d not applicable)" % (
+                    sum(1 for r in st if r["applied"] and r["detected"]), sum(1 for r in st if r["applied"]), sum(1 for r in st if not r["applied"]))
+            print("OK property=%s functions=%d labelled_obligations=%d implicit_sites=%d canaries=%d/%d verus_wall=%.1fs%s%s" % (
                 p, len(fns), len(labelled), sum(implicit.values()), sess.canaries_failed, sess.n_canaries, sess.main["wall"],
-                " (cached)" if sess.main.get("cache_hit") else ""))
+                " (cached)" if sess.main.get("cache_hit") else "", stx))
     return rc
 
 
